@@ -211,8 +211,17 @@ def heap_replay(ck, bdir, seqs):
 # --------------------------------------------------------------------------
 # end-to-end replay
 
-def loom_name(l):
+def loom_name(l, sysd=None):
+    # looms that share a host: "nodeH.<l>" (the offset table is keyed by host = name before the first dot)
+    if sysd is not None and sysd.get("_samehost"):
+        return "nodeH.%d" % l
     return "node%d.x" % l
+
+
+def K(sysd):
+    """clock scale of the materialised trace: model clock c is written as (BASE + c) * K (and offsets as o * K);
+    a large K makes neighbouring events seconds apart (more than 2^31 ns), as in long real traces"""
+    return sysd.get("_scale", 1)
 
 
 def layout(sysd):
@@ -230,25 +239,29 @@ def layout(sysd):
         tid = 100 + i
         out.append({"i": i, "loom": l, "pid": pid, "tid": tid, "cpu": j, "app": 10 * l + 1 + j // 2,
                     "first_of_loom": j == 0, "ncpus": tot[l],
-                    "rel": "loom.%s/proc.%d/thread.%d" % (loom_name(l), pid, tid)})
+                    "rel": "loom.%s/proc.%d/thread.%d" % (loom_name(l, sysd), pid, tid)})
     return out
 
 
-def stream_bytes(st, clocks):
+def stream_bytes(st, clocks, k_=1):
     if not clocks:
         return b""                      # header only: a stream with zero events
-    b = obs.ev("OHx", BASE + clocks[0], struct.pack("<iiQ", st["cpu"], st["tid"], 0))
+    b = obs.ev("OHx", (BASE + clocks[0]) * k_, struct.pack("<iiQ", st["cpu"], st["tid"], 0))
     for k, c in enumerate(clocks, 1):
-        b += obs.ev("OM=", BASE + c, struct.pack("<qi", 100 * st["i"] + k, MARK_TYPE))
-    b += obs.ev("OHe", BASE + clocks[-1])
+        b += obs.ev("OM=", (BASE + c) * k_, struct.pack("<qi", 100 * st["i"] + k, MARK_TYPE))
+    b += obs.ev("OHe", (BASE + clocks[-1]) * k_)
     return b
 
 
 def offsets_table(sysd):
     looms = sorted(set(sysd["loom"]))
     txt = "rank       hostname             offset_median        offset_mean          offset_std\n"
+    if sysd.get("_samehost"):
+        # one row for the host shared by all the looms (they have the same offset in this system)
+        o = sysd["off"][looms[0] - 1] * K(sysd)
+        return txt + "%-10d %-20s %-20d %-20.6f %-20.6f\n" % (0, "nodeH", o, 500.25 - 3 * o, 3.5)
     for r, l in enumerate(looms):
-        o = sysd["off"][l - 1]
+        o = sysd["off"][l - 1] * K(sysd)
         # only the median is the offset; mean and deviation are made unrelated on purpose
         txt += "%-10d %-20s %-20d %-20.6f %-20.6f\n" % (r, "node%d" % l, o, 500.25 * (r + 1) - 3 * o, 3.5 + r)
     return txt
@@ -263,10 +276,10 @@ def materialise(root, sysd, order, table_in_dir):
             extra = {"ovni.mark.%d.title" % MARK_TYPE: "event id",
                      "ovni.mark.%d.chan_type" % MARK_TYPE: "single"}
         cpus = [(j, 10 * st["loom"] + j) for j in range(st["ncpus"])] if st["first_of_loom"] else None
-        meta = obs.thread_meta(st["tid"], st["pid"], loom_name(st["loom"]), app_id=st["app"],
+        meta = obs.thread_meta(st["tid"], st["pid"], loom_name(st["loom"], sysd), app_id=st["app"],
                                cpus=cpus, extra=extra)
-        obs.write_stream(root, loom_name(st["loom"]), st["pid"], st["tid"], meta,
-                         stream_bytes(st, sysd["clocks"][idx]))
+        obs.write_stream(root, loom_name(st["loom"], sysd), st["pid"], st["tid"], meta,
+                         stream_bytes(st, sysd["clocks"][idx], K(sysd)))
     if table_in_dir:
         with open(os.path.join(root, "clock-offsets.txt"), "w") as f:
             f.write(offsets_table(sysd))
@@ -336,6 +349,14 @@ def prv_marks(path):
 def sys_record(sysd, tool):
     return {"e": "sys", "tool": tool, "base": BASE, "loom": sysd["loom"], "off": sysd["off"],
             "clocks": sysd["clocks"]}
+
+
+def unscale(x, sysd):
+    """observed time -> model units; a time that is not a multiple of the scale cannot be a model time"""
+    k_ = K(sysd)
+    if k_ == 1:
+        return x
+    return x // k_ if x % k_ == 0 else -999
 
 
 def em_record(ident, sysd, c=-1, t=-1, stream=None):
@@ -428,7 +449,7 @@ def run_case(arg):
                     if rt.rc != 0:
                         res["problems"].append(("ovnitop failed (%s): %s" % (rt.verdict, rt.last_errors()), "top-fail"))
                     ex1 = [sys_record(sysd, "dump")]
-                    ex1 += [em_record(v, sysd, c=clk - BASE, stream=si) for (v, clk, si) in dl]
+                    ex1 += [em_record(v, sysd, c=(unscale(clk, sysd) - BASE), stream=si) for (v, clk, si) in dl]
                     ex1.append({"e": "end", "top": top})
                     res["executions"].append(ex1)
                     files["ovnidump.out"] = rd.out
@@ -457,7 +478,7 @@ def run_case(arg):
                     if prv.bad:
                         res["problems"].append(("malformed lines in thread.prv: %r" % prv.bad[:2], "prv-bad"))
                     ex2 = [sys_record(sysd, "emu")]
-                    ex2 += [em_record(v, sysd, t=t) for (v, t) in marks]
+                    ex2 += [em_record(v, sysd, t=unscale(t, sysd)) for (v, t) in marks]
                     ex2.append({"e": "end", "top": -1})
                     res["executions"].append(ex2)
                     files["thread.prv"] = tprv
@@ -575,6 +596,23 @@ def main(pid, tier):
     cases = [json.loads(s) for s in small[:nsmall] + walk[:nwalk]]
     ck.notes["systems"] = {"exported_small": len(small), "exported_walks": len(walk), "replayed": len(cases),
                            "trace_dirs_on": "tmpfs /dev/shm" if trace_scratch_kind() else "scratch (creation order may not matter)"}
+    # materialisation variants (harness-only keys, the model system is unchanged):
+    #  _scale    : every third system is written with clocks and offsets multiplied by 1.1e9, so that
+    #              neighbouring events are seconds apart (> 2^31 ns) as in long real traces
+    #  _samehost : systems whose looms all have the same offset are also written with the looms on ONE
+    #              host ("nodeH.1", "nodeH.2": one row of the offset table serves both)
+    extra_cases = []
+    for i, c in enumerate(cases):
+        if i % 3 == 1:
+            c["_scale"] = 1100000000
+        offs = [c["off"][l - 1] for l in sorted(set(c["loom"]))]
+        if len(offs) >= 2 and len(set(offs)) == 1 and offs[0] != 0 and len(extra_cases) < (150 if tier == "quick" else 3000):
+            c2 = json.loads(json.dumps(c))
+            c2["_samehost"] = True
+            extra_cases.append(c2)
+    cases += extra_cases
+    ck.notes["systems"]["scaled_clocks"] = sum(1 for c in cases if c.get("_scale"))
+    ck.notes["systems"]["looms_sharing_a_host"] = len(extra_cases)
     args = [(bdir, shim, c, core.seed() * 1000003 + i) for i, c in enumerate(cases)]
     results = core.pmap(run_case, args, workers=core.NCPU)
     ck.phase("replay")
